@@ -14,6 +14,13 @@ def resetClearsCacheFact : Bool :=
   controllerFsmResets == ["resetFSM: c.FSM.Reset()"] &&
   resetFSMBody == ["if c.Consensus != nil { c.Consensus.BlockResult = nil }", "c.FSM.Reset()"]
 
+/-- the header's last certificate is written into the working store for every height > 1 on every
+path: the one write site is guarded by the height test alone (not by the syncing test) -/
+def indexesLastCertFact : Bool :=
+  lastCertIndexSites ==
+    ["candidate.Height > 1 => err = c.FSM.Store().(lib.StoreI).IndexQC(candidate.LastQuorumCertificate)"] &&
+  applyAndValidateFirst == ["c.CheckAndSetLastCertificate", "c.FSM.ApplyBlock"]
+
 end Canopy.Exec
 
 namespace Canopy.Atomic
